@@ -6,7 +6,9 @@ package dastard
 
 import (
 	"fmt"
+	"os"
 	"sort"
+	"sync"
 	"testing"
 	"time"
 
@@ -258,5 +260,100 @@ func TestVerifStream(t *testing.T) {
 			stRunOnce(i+1, sc, "A", true)
 		}
 		stRunOnce(i+1, sc, "B", false)
+	}
+}
+
+// TestVerifEMDrop: edge-multi processing across DATA DROPS (the source numbers the next block later: Lancero and ROACH do
+// so after lost data).  Only crash-freedom is looked at here (C08: no stream content or block pattern can crash
+// processing); the trace gets one EMDrop line per run, with the panic message if there was one.
+func TestVerifEMDrop(t *testing.T) {
+	rng := vRng()
+	nrun := 150
+	if os.Getenv("VERIF_TIER") != "quick" {
+		nrun = 4000
+	}
+	var panics []string
+	var pmu sync.Mutex
+	VRecover = func(name string, r any) {
+		pmu.Lock()
+		panics = append(panics, name+": "+fmt.Sprint(r))
+		pmu.Unlock()
+	}
+	for run := 1; run <= nrun; run++ {
+		npre := 4 + rng.Intn(8)
+		nsamp := npre + 4 + rng.Intn(20)
+		mode := []EMTMode{EMTRecordsTwoFullLength, EMTRecordsVariableLength, EMTRecordsFullLengthIsolated}[rng.Intn(3)]
+		zero := rng.Intn(2) == 0
+		ds := &AnySource{nchan: 1, name: "VerifEMDrop"}
+		ds.sampleRate = 10000
+		ds.samplePeriod = 100 * time.Microsecond
+		ds.PrepareChannels()
+		ds.rowColCodes = make([]RowColCode, 1)
+		if err := ds.PrepareRun(npre, nsamp); err != nil {
+			t.Fatal(err)
+		}
+		ts := TriggerState{EdgeMulti: true, EMTState: EMTState{mode: mode, threshold: 20, nmonotone: 1, enableZeroThreshold: zero}}
+		if err := ds.ChangeTriggerState(&FullTriggerState{ChannelIndices: []int{0}, TriggerState: ts}); err != nil {
+			t.Fatal(err)
+		}
+		vTakeRecords()
+		frame := int64(rng.Intn(3)) * (int64(1) << 32)
+		frame += int64(100000 + rng.Intn(1000))
+		pmu.Lock()
+		panics = nil
+		pmu.Unlock()
+		nblocks := 3 + rng.Intn(4)
+		drops := []int{}
+		level := 1000
+		for b := 0; b < nblocks; b++ {
+			L := nsamp + rng.Intn(6*nsamp)
+			data := make([]RawType, L)
+			// pulses; one of them close to the end of the block, so that an edge is pending when the block ends
+			edges := map[int]bool{L - 1 - rng.Intn(nsamp): true, rng.Intn(L): true}
+			v := level
+			for i := range data {
+				if edges[i] {
+					v = level + 400
+				} else if v > level {
+					v -= (v-level)/6 + 1
+				}
+				data[i] = RawType(v)
+			}
+			gap := 0
+			if b > 0 && rng.Intn(2) == 0 {
+				gap = []int{1, 2, 5, 9, 10, 11, nsamp - 1, nsamp, nsamp + 1, nsamp + 9, nsamp + 10, nsamp + 11, 2*nsamp + 10, 2*nsamp + 11, 5000}[rng.Intn(15)]
+			}
+			frame += int64(gap)
+			drops = append(drops, gap)
+			block := new(dataBlock)
+			block.segments = []DataSegment{{rawData: data, framesPerSample: 1, framePeriod: ds.samplePeriod, firstFrameIndex: FrameIndex(frame),
+				firstTime: time.Unix(1700000000, 0).Add(time.Duration(frame) * ds.samplePeriod), droppedFrames: gap}}
+			block.nSamp = L
+			func() {
+				defer func() {
+					if r := recover(); r != nil {
+						pmu.Lock()
+						panics = append(panics, "ProcessSegments: "+fmt.Sprint(r))
+						pmu.Unlock()
+					}
+				}()
+				ds.ProcessSegments(block)
+			}()
+			frame += int64(L)
+			vTakeRecords()
+			pmu.Lock()
+			np := len(panics)
+			pmu.Unlock()
+			if np > 0 {
+				break
+			}
+		}
+		pmu.Lock()
+		msg := ""
+		if len(panics) > 0 {
+			msg = panics[0]
+		}
+		pmu.Unlock()
+		vEmit(vmap{"ev": "EMDrop", "scen": 700000 + run, "npre": npre, "nsamp": nsamp, "mode": int(mode), "zero": zero, "drops": drops, "panic": msg})
 	}
 }
